@@ -33,6 +33,8 @@ type c24Case struct {
 	Set     []int       `json:"set"`               // tracked validator set (distinct pool keys)
 	M       int         `json:"m,omitempty"`       // neo: threshold of the tracked script (ont: ceil(N/3); neo3: N-floor((N-1)/3))
 	Set2    []int       `json:"set2,omitempty"`    // ont: second peer set, recorded at key height 20
+	Idx     []uint32    `json:"idx,omitempty"`     // ont: consensus index of each Set peer in the source chain's config (nil: dense 1..n)
+	Idx2    []uint32    `json:"idx2,omitempty"`    // ont: same for Set2
 	Height  uint32      `json:"height"`            // ont: message height; neo/neo3: state root index
 	Keys    []int       `json:"keys,omitempty"`    // ont: bookkeeper list sent with the message
 	Tracked bool        `json:"tracked,omitempty"` // neo*: the witness script is the tracked script
@@ -44,6 +46,36 @@ type c24Case struct {
 
 func genSet(t *rapid.T, name string, lo, hi int) []int {
 	return rapid.SliceOfNDistinct(rapid.IntRange(0, poolSize-1), lo, hi, rapid.ID[int]).Draw(t, name)
+}
+
+// genPeerIdx draws the consensus indexes the source chain assigns to n peers: dense 1..n (nil) or
+// arbitrary distinct uint32 values (sparse, around 63/64/65 and 128, 2^31, 2^32-1); the light
+// client copies them verbatim from new_chain_config.peers[].index.
+func genPeerIdx(t *rapid.T, name string, n int) []uint32 {
+	if rapid.IntRange(0, 2).Draw(t, name+"dense") == 0 {
+		return nil
+	}
+	one := rapid.OneOf(
+		rapid.SampledFrom([]uint32{0, 1, 2, 31, 32, 33, 62, 63, 64, 65, 66, 127, 128, 129, 191, 192, 255, 256, 1 << 16, 1<<31 - 1, 1 << 31, 1<<31 + 1, 1<<32 - 2, 1<<32 - 1}),
+		rapid.Uint32Range(60, 140),
+		rapid.Uint32Range(0, 20),
+		rapid.Uint32(),
+	)
+	return rapid.SliceOfNDistinct(one, n, n, rapid.ID[uint32]).Draw(t, name)
+}
+
+func idxOK(idx []uint32, n int) bool {
+	if len(idx) == 0 {
+		return true
+	}
+	seen := map[uint32]bool{}
+	for _, v := range idx {
+		if seen[v] {
+			return false
+		}
+		seen[v] = true
+	}
+	return len(idx) == n
 }
 
 func pickSubset(t *rapid.T, name string, from []int, k int) []int {
@@ -193,8 +225,10 @@ func genC24(t *rapid.T) c24Case {
 	c.Set = genSet(t, "set", 1, 10)
 	switch c.Router {
 	case "ont":
+		c.Idx = genPeerIdx(t, "idx", len(c.Set))
 		if rapid.IntRange(0, 3).Draw(t, "epoch2") == 0 {
 			c.Set2 = genSet(t, "set2", 1, 10)
+			c.Idx2 = genPeerIdx(t, "idx2", len(c.Set2))
 		}
 		c.Height = rapid.SampledFrom([]uint32{5, 10, 11, 15, 20, 21, 21, 30, 30, 30}).Draw(t, "height")
 		inForce := c.Set
@@ -287,7 +321,7 @@ func c24Oracle(tracked []int, need int, listed []int, scriptOK bool, sigs []sigS
 func runC24(ctx *ev.Ctx, c c24Case) {
 	ctx.Label("router:" + c.Router)
 	ctx.Label("mode:" + c.Mode)
-	if len(c.Set) == 0 || !distinct(c.Set) || (c.Set2 != nil && (len(c.Set2) == 0 || !distinct(c.Set2))) {
+	if len(c.Set) == 0 || !distinct(c.Set) || (c.Set2 != nil && (len(c.Set2) == 0 || !distinct(c.Set2))) || !idxOK(c.Idx, len(c.Set)) || !idxOK(c.Idx2, len(c.Set2)) {
 		ctx.Label("skipped:malformed-case")
 		return
 	}
@@ -353,11 +387,11 @@ func subsetOf(xs []int, set []int) bool {
 func runC24Ont(ctx *ev.Ctx, c c24Case) {
 	w := newSideWorld(c24Chain, utils.ONT_ROUTER, nil, nil)
 	defer w.Close()
-	if r := w.syncGenesis(ontHeaderBytes(ontHeader{Height: ontGenesisH, HasCfg: true, NewCfg: c.Set})); !r.OK() {
+	if r := w.syncGenesis(ontHeaderBytes(ontHeader{Height: ontGenesisH, HasCfg: true, NewCfg: c.Set, NewIdx: c.Idx})); !r.OK() {
 		ctx.Failf("setup: operator-signed syncGenesisHeader failed: %v", r.Err)
 	}
 	if c.Set2 != nil {
-		kh := ontHeader{Height: ontSecondKeyH, HasCfg: true, NewCfg: c.Set2, Keys: c.Set, Sigs: okSigs(c.Set)}
+		kh := ontHeader{Height: ontSecondKeyH, HasCfg: true, NewCfg: c.Set2, NewIdx: c.Idx2, Keys: c.Set, Sigs: okSigs(c.Set)}
 		if r := w.syncHeaders([][]byte{ontHeaderBytes(kh)}); !r.OK() {
 			ctx.Failf("setup: key header signed by every tracked peer was rejected: %v", r.Err)
 		}
@@ -410,8 +444,8 @@ func runC24Ont(ctx *ev.Ctx, c c24Case) {
 	switch {
 	case accepted && !v.eligible:
 		ctx.Label("ont:accepted-ineligible")
-		msg := fmt.Sprintf("ont/%s: message at height %d accepted with %d distinct tracked valid signer(s), %d required (tracked set %v, bookkeepers %v, sigs %+v)",
-			c.Path, c.Height, v.distinct, need, tracked, c.Keys, c.Sigs)
+		msg := fmt.Sprintf("ont/%s: message at height %d accepted with %d distinct tracked valid signer(s), %d required (tracked set %v, peer indexes %v / %v (empty: dense 1..n), bookkeepers %v, sigs %+v)",
+			c.Path, c.Height, v.distinct, need, tracked, c.Idx, c.Idx2, c.Keys, c.Sigs)
 		if tracked != nil && hasDup(c.Keys) && subsetOf(c.Keys, tracked) {
 			// root cause: VerifyCrossChainMsg has no used-key check; VerifyMultiSignature matches equal keys at different positions
 			ctx.Known(keyFindingOnt, "%s", msg)
